@@ -64,6 +64,8 @@ func applyBytesMut(wire []byte, seg *refcodec.Segment, m MutSpec, rnd *rand.Rand
 		ins := make([]byte, m.N)
 		rnd.Read(ins)
 		out = append(out[:at], append(ins, out[at:]...)...)
+	case "truncate":
+		out = out[:at]
 	case "delete":
 		n := m.N
 		if at+n > len(out) {
